@@ -21,6 +21,10 @@ func globalInit(st *State, g *ssa.Global, o *Object) {
 		o.V = FuncV{Native: "pool.GetBuf"}
 	case "github.com/IrineSistiana/mosdns/v5/pkg/pool.ReleaseBuf":
 		o.V = FuncV{Native: "pool.ReleaseBuf"}
+	case "context.closedchan":
+		c := st.newChan(0, nil)
+		c.closed = true
+		o.V = ChanV{C: c}
 	case "net/netip.z4", "net/netip.z6noz":
 		// unique.Make(addrDetail{...}): a handle is a struct holding a canonical pointer
 		ht := o.T.Underlying().(*types.Struct)
